@@ -5,5 +5,8 @@ CONSTANTS
  Plans <- MCPlans
  Fixes <- MCFixes
  Alphabet <- MCAlphabet
- K = 3
+ K = 4
  ResumeVals <- MCResumeVals
+INVARIANT C06_NoLostWakeup
+INVARIANT C06_ResumeValue
+INVARIANT C06_NoLostCompletion
